@@ -17,7 +17,7 @@ Inductive oout : Type := OFinal (m : omsg) | OErr (cls : N).
 Inductive omode : Type := MGenerate | MStream.
 Inductive orun : Type :=
   ORun (md : omode) (callopts : bool) (inputs : list (list omsg)) (rounds : list (list call))
-       (emits : option (list omsg)) (out : oout)
+       (emits : option (list omsg * bool)) (out : oout)
        (mutated : bool).   (* some history slice handed to the model read differently after the run *)
 Inductive tdef : Type := T (name : string) (k : tkind).
 
@@ -167,10 +167,13 @@ Definition case_engine_trace (c : ccase) (md : omode) (callopts : bool) : option
             (k_script c) (map msg_of (k_input c)).
 
 Definition trace_ok (c : ccase) (callopts : bool) (t : trace) (inputs : list (list omsg)) (rounds : list (list call))
-           (emits : option (list omsg)) (out : oout) : bool :=
+           (emits : option (list omsg * bool)) (out : oout) : bool :=
   list_eqb (list_eqb msg_eqb) (t_inputs t) inputs
   && list_eqb (list_eqb call_eqb) (filter nonempty (map (case_executed c callopts) (t_rounds t))) rounds
-  && match emits with Some es => list_eqb msg_eqb (t_emits t) es | None => true end
+  && match emits with   (* the future's messages, and whether it ended closed *)
+     | Some (es, closed) => list_eqb msg_eqb (t_emits t) es && Bool.eqb (future_closed t) closed
+     | None => true
+     end
   && out_eqb (t_out t) out.
 
 (* ---- the history as a Go slice (Model/ReactHeap.v) --------------------------------------- *)
